@@ -48,6 +48,10 @@ def pick_streams(tier):
     iv('3blk truncated end', three[:-2])
     iv('3blk data flip', bzgen.flip(three, blocks[1]['bit_offset'] + 200))
     iv('3blk magic flip', bzgen.flip(three, blocks[2]['bit_offset'] + 5))
+    # the documented exception: a block ending in four equal bytes without count must be rejected wherever the
+    # output-buffer boundaries fall
+    iv('nocount aaaa', bzgen.build([([Block(rle=b'aaaa', plain_for_crc=b'aaaa')], 1)])[0])
+    iv('nocount xyzbbbb', bzgen.build([([Block(rle=b'xyzbbbb', plain_for_crc=b'xyzbbbb'), Block(b'next')], 1)])[0])
     iv('garbage', b'not a bzip2 file at all')
     iv('hdr only', b'BZh9')
     iv('overflow L1', bzgen.build([([Block(L=bytes(100001), origptr=0, plain_for_crc=b'')], 1)])[0])
